@@ -10,8 +10,11 @@ oracle      by construction, independent of model and code: an identifier is ass
             acceptable outcomes are "untouched" or the same assembly with the replacement in the term's place
             (byte for byte outside the term's span); near-miss identifiers must stay untouched.  Evaluated on
             find_compound_variants, on find_enhanced_matches and end-to-end (scan_repository + apply_plan on a one-file
-            tree, and the CLI binary on a sample).  Every failure must be one of the listed finding classes *and*
-            equal that class's predicted output, otherwise it is a VIOLATION.
+            tree, and the CLI binary on a sample).  Every failure must be one of the finding classes still listed in
+            KNOWN_FINDINGS.txt *and* equal that class's predicted output, otherwise it is a VIOLATION.  The three classes
+            found on the pinned tree (doubled separators collapsed, leading underscores lost, hump identifier with an
+            underscore re-joined) were repaired by commit 70a22d6 and are no longer listed: their predicted outputs are kept
+            only to name the class when the old behaviour returns (which is then a VIOLATION).
 """
 import itertools
 import json
@@ -419,11 +422,13 @@ class Judge:
                 for slug in slugs:
                     ctx.count(f"{op}:finding:{slug}")
                 return True
+        regressed = [] if (c.near or obs is None or obs.startswith("?")) else [k for k, v in c.classes().items() if v == obs]
         if len(ctx.violations) < 5:
-            ctx.violation("input", {"op": op, "request": req, **c.describe()},
+            ctx.violation("input", {"op": op, "request": req, **c.describe(), "repaired_class_is_back": regressed},
                           expected=("untouched" if c.near else {"untouched": c.ident, "or": c.expected}), observed=obs,
                           model_prediction=model,
                           note=("near-miss identifier (term letters without its word sequence) was edited" if c.near else
+                                (f"a repaired behaviour returned ({', '.join(regressed)}; fixed by 70a22d6): " if regressed else "") +
                                 "the edit changed bytes outside the term's span and matches no listed finding class"))
         self.stop = True
         return False
@@ -541,28 +546,26 @@ def load_corpus():
     return out
 
 
-def replay_witness(ctx, name, obj):
-    """a recorded finding witness: re-run on the implementation and on the model; print KNOWN-FINDING only if the
-    implementation still produces exactly the recorded output"""
-    case = obj["case"]
-    reqs = case["requests"]
-    impl = common.run_impl(reqs)
-    model = common.run_model([r for r in reqs if not r.startswith("planfile")])
-    ctx.cov["evaluations"] += len(reqs)
-    mi = iter(model)
-    same = True
-    for r, i, want in zip(reqs, impl, obj["observed_lines"]):
-        if not r.startswith("planfile"):
-            m = next(mi)
-            if m != i:
-                ctx.broke("correspondence", f"corpus/C07/{name}", {"request": r, "impl": i, "model": m})
-        if i != want:
-            same = False
-    if same:
-        ctx.known(obj["finding"])
-    else:
-        ctx.notes.append(f"corpus/C07/{name}: the recorded defect no longer reproduces (implementation output changed)")
-    return same
+def corpus_case(obj):
+    """a recorded (formerly failing) identifier, rebuilt by construction"""
+    k = obj["case"]["construction"]
+    return Case(k["style"], k["lead"], k["prefix_words"], k["suffix_words"], k["doubled"], k["trailing"],
+                k["term_words"], k["replacement_words"])
+
+
+def replay_witness(ctx, name, obj, judge=None):
+    """corpus entry of a defect that was fixed (or is still listed): the identifier goes through all three ops, model vs
+    implementation, and the locality oracle.  If the old output comes back and the finding is still listed in
+    KNOWN_FINDINGS.txt it is printed as KNOWN-FINDING, otherwise it is a VIOLATION (a repaired behaviour returned)."""
+    judge = judge or Judge(ctx)
+    c = corpus_case(obj)
+    n0 = len(ctx.violations)
+    res = run_cases(ctx, judge, [c], f"corpus/{name}", e2e_every=1)
+    old = obj.get("observed_before_fix")
+    back = any(obs_compound(i) == old for (r, i, m) in res if r.startswith("compound"))
+    if back and len(ctx.violations) == n0:
+        ctx.notes.append(f"corpus/C07/{name}: the old output {old!r} is back and accepted as listed finding {obj.get('finding')}")
+    return len(ctx.violations) == n0
 
 
 def run(ctx):
@@ -587,7 +590,7 @@ def run(ctx):
     judge = Judge(ctx)
     # corpus first: finding witnesses
     for name, obj in load_corpus():
-        replay_witness(ctx, name, obj)
+        replay_witness(ctx, name, obj, judge)
     fam = family(ctx.thorough)
     run_cases(ctx, judge, fam, "family", e2e_every=1 if ctx.thorough else 4)
     ctx.sample({"family": fam[len(fam) // 2].describe()})
@@ -615,11 +618,11 @@ def widen(ctx, judge):
 def replay(ctx, path):
     obj = json.load(open(path))
     case = obj.get("case", {})
-    if "requests" in case:
+    if "construction" in case:
         ok, msg = common.cargo_build()
         common.lean_build([])
-        same = replay_witness(ctx, os.path.basename(path), obj)
-        print(json.dumps({"reproduced": same}, indent=1))
+        ok = replay_witness(ctx, os.path.basename(path), obj)
+        print(json.dumps({"locality_holds": ok}, indent=1))
         return
     if isinstance(case, dict) and "request" in case and isinstance(case["request"], str):
         ok, msg = common.cargo_build()
